@@ -133,6 +133,8 @@ def prop_tree(case, model_cls=SIRModel, name='Gillespie_SIR', walk=None, max_dep
         classes.append('zero-rate')
     if case.get('tmax', INF) not in (INF, 'inf'):
         classes.append('finite-tmax')
+    if case['gc'].get('zero_weights') and case.get('ew'):
+        classes.append('zero-weight-edges')
     res = Result(fails, nontrivial=flags['nt'], classes=classes)
     res.stats = stats
     return res
@@ -223,6 +225,10 @@ def run_exhaustive(ctx, sub, cases, modname, funcname, nproc=16):
 @st.composite
 def walk_case(draw, sis=False, nmax=6):
     gc = draw(gen.graph_case(1, nmax, labels=('int', 'perm', 'str', 'tuple')))
+    if gc['ew'] and draw(st.integers(0, 3)) == 0:
+        lab = list(gc['ew'])[0]
+        gc['ew'][lab] = [0.0 if draw(st.integers(0, 2)) == 0 else w for w in gc['ew'][lab]]     # zero-weight candidates
+        gc['zero_weights'] = True
     I0, R0 = draw(gen.initial_sets(gc['nodes'], allow_R=not sis))
     tau = draw(gen.rates)
     gamma = draw(gen.rates)
@@ -333,6 +339,6 @@ def run(ctx):
         tot = run_exhaustive(ctx, 'tree', exhaustive_cases(3 if quick else 4), 'eonverif.props.c01', 'tree_prop')
         ctx.exhaustive = False
     if not only or 'walk' in only:
-        run_hypothesis(ctx, 'walk', walk_case(), prop_walk, 250 if quick else 5000)
+        run_hypothesis(ctx, 'walk', walk_case(), prop_walk, 800 if quick else 5000)
     if not only or 'mc' in only:
         mc.run_mc(ctx, 'mc', mc_configs(['fast_SIR', 'Gillespie_SIR'], thorough=not quick), 64000 if quick else 1000000)
